@@ -19,6 +19,8 @@ QUICK = [
     ("gen-packfile", {"nfiles": 8, "ndirs": 2, "bs": 8192, "big": True, "notail": True}, 2, 30),
     ("gen-packfile", {"nfiles": 2, "ndirs": 2, "bs": 4096, "duptails": 30, "comp": "gzip"}, 3, 40),
     ("tar2sqfs", {"nfiles": 2, "ndirs": 1, "bs": 4096, "duptails": 24}, 2, 40),
+    ("gen-packfile", {"nfiles": 8, "ndirs": 1, "bs": 4096, "tiny": 40, "big": True, "comp": "gzip", "xopts": True, "notail": True}, 2, 40),
+    ("gen-packfile", {"nfiles": 12, "ndirs": 2, "bs": 4096, "big": True, "xopts": True}, 2, 40),
     ("gen-packdir", {"nfiles": 10, "ndirs": 3, "bs": 4096, "big": True, "xattrs": "safe", "hardlinks": True}, 4, 40),
     ("tar2sqfs", {"nfiles": 10, "ndirs": 2, "bs": 4096, "big": True}, 5, 40),
     ("tar2sqfs", {"nfiles": 8, "ndirs": 2, "bs": 4096, "wrap": "xz", "big": True}, 2, 30),
